@@ -287,7 +287,8 @@ func resolveOverrideValue(module *Module, idx int, constants PipelineConstants, 
 			return val, nil
 		}
 	}
-	if ov.Name != "" {
+	if ov.ID == nil && ov.Name != "" {
+		// An override declared with @id is addressed by its id only.
 		if val, ok := constants[ov.Name]; ok {
 			return val, nil
 		}
